@@ -5,7 +5,7 @@ import iongen
 import binlib
 
 import c12text
-THEOREMS = ["C12_binary_no_panic", "C12_binary_sticky", "C12_binary_error_recorded", "C12_binary_first_failure"] + c12text.THEOREMS
+THEOREMS = ["C12_binary_no_panic", "C12_binary_sticky", "C12_binary_error_recorded", "C12_binary_first_failure", "C12_binary_lst_no_panic", "C12_binary_lst_total", "C12_binary_finish_clean", "C12_binary_finish_clean_lst"] + c12text.THEOREMS
 LEVEL = "proof"
 ASSUMPTIONS = ["Go == model only on the call sequences sampled (exhaustive for short sequences over the reduced alphabet)",
                "binary no-panic theorem is for NewBinaryWriter without shared tables; the fixed-table writer is covered by correspondence",
@@ -106,6 +106,13 @@ def run(ctx):
             f2 = iongen.gen_forest(rng, {"depth": 2})
             toks = toks + iongen.split_calls(iongen.calls_of_forest(f2, rng))
         longs.append(toks)
+    # length-boundary forests (legal sequences), also written in two batches on one Writer
+    for f in binlib.boundary_forests():
+        toks = iongen.split_calls(iongen.calls_of_forest(f, rng))
+        if sum(len(t) for c in toks for t in c) < 60000:
+            longs.append(toks)
+            if rng.random() < 0.3:
+                longs.append(toks + toks)
     for config in ("bw -", "bwl - 2 x61 x666f6f"):
         lines, callss = [], []
         for q in seqs + longs:
